@@ -344,6 +344,8 @@ func Canon(v ssa.Value) string {
 		}
 	case *ssa.BinOp:
 		return "(" + Canon(x.X) + x.Op.String() + Canon(x.Y) + ")"
+	case *ssa.IndexAddr:
+		return "&" + Canon(x.X) + "[" + Canon(x.Index) + "]"
 	case *ssa.Extract:
 		return Canon(x.Tuple) + "#" + fmt.Sprint(x.Index)
 	case *ssa.Index:
